@@ -35,13 +35,19 @@ class Sent(object):
         return (Sent, ())
 
 
-KINDS = ['keymap', 'hashmap:md5', 'stringmap', 'picklemap:repr', 'picklemap:pickle', 'picklemap:dill', 'hashmap:builtin']
+KINDS = ['keymap', 'hashmap:md5', 'stringmap', 'stringmap:latin_1', 'picklemap:repr', 'picklemap:pickle', 'picklemap:dill', 'hashmap:builtin']
 
 
-def configs(include_builtin_hash=True):
+def configs(include_builtin_hash=True, include_named_encoding=False):
     out = []
     for kind in KINDS:
         if kind == 'hashmap:builtin' and not include_builtin_hash:
+            continue
+        if kind == 'stringmap:latin_1':
+            # klepto.crypto.string() re-lists all codecs on every call with a named encoding (slow): one flat pair of
+            # configurations, and only where asked for (C10)
+            if include_named_encoding:
+                out += [(kind, True, False, False), (kind, True, True, False)]
             continue
         for flat in (True, False):
             if kind == 'hashmap:builtin' and not flat:
@@ -68,6 +74,8 @@ def make_keymap(cfg):
         return km.hashmap(**kw)
     if kind == 'stringmap':
         return km.stringmap(**kw)
+    if kind == 'stringmap:latin_1':
+        return km.stringmap(encoding='latin_1', **kw)
     if kind == 'picklemap:repr':
         return km.picklemap(**kw)
     if kind == 'picklemap:pickle':
@@ -156,7 +164,7 @@ def call_repr(args, kwitems):
     return 'f(%s)' % ', '.join([repr(a) for a in args] + ['%s=%r' % kv for kv in kwitems])
 
 
-VARIANTS = [1, 1.0, True, '1', (1,), b'1']
+VARIANTS = [1, 1.0, True, '1', (1,), b'1', 'r\u03c0', 'r&#960;']     # the last two: a character a narrow codec cannot encode / its reference
 
 
 def value_variants(args, kwitems):
